@@ -19,7 +19,7 @@ const preludeSorts = `(declare-sort Ref 0)
 (declare-sort Box 0)
 (declare-sort RV 0)
 (declare-sort Opaque 0)
-(declare-datatypes ((Iface 0)) (((mkIface (typ TypeTag) (val Box)))))
+(declare-datatypes ((Iface 0)) (((mkIface (ityp TypeTag) (ival Box)))))
 (declare-datatypes ((Slice 0)) (((mkSlice (sdata Ref) (soff Int) (slen Int) (scap Int)))))
 (declare-datatypes ((Unit 0)) (((unit))))
 (declare-const nil Ref)
@@ -93,8 +93,14 @@ func quote(s string) string {
 func (w *World) typeStr(t types.Type) string { return types.TypeString(t, w.qual) }
 
 // declare a function/constant once
+var preludeFuns = map[string]bool{"birth": true, "strlen": true, "kind": true, "named": true, "comparable": true, "elemT": true, "keyT": true,
+	"ptrTo": true, "sliceOf": true, "mapOf": true, "nil": true, "T_nil": true, "boxnil": true, "nilIface": true}
+
 func (w *World) declFun(name string, args []string, ret string) {
 	if _, ok := w.funKnown[name]; ok {
+		return
+	}
+	if preludeFuns[name] {
 		return
 	}
 	var d string
